@@ -124,6 +124,22 @@ def _gensym():
     return f"_ptera__{next(_IDX)}"
 
 
+def _suspend(cm, value):
+    """Called by an instrumented generator right before it yields value."""
+    suspend = getattr(cm, "suspend", None)
+    if suspend is not None:
+        suspend()
+    return value
+
+
+def _resume(cm, value):
+    """Called by an instrumented generator right after it is resumed."""
+    resume = getattr(cm, "resume", None)
+    if resume is not None:
+        resume()
+    return value
+
+
 class ExternalVariableCollector(NodeVisitor):
     """Collect variables referred to but not defined in the given AST.
 
@@ -658,14 +674,20 @@ class PteraTransformer(NodeTransformer):
         )
 
         wrapped_body.append(
+            ast.Assign(
+                targets=[self._set("cm")],
+                value=ast.Call(
+                    func=self._get("proceed"),
+                    args=[self._get("self")],
+                    keywords=[],
+                ),
+            )
+        )
+        wrapped_body.append(
             ast.With(
                 items=[
                     ast.withitem(
-                        context_expr=ast.Call(
-                            func=self._get("proceed"),
-                            args=[self._get("self")],
-                            keywords=[],
-                        ),
+                        context_expr=self._get("cm"),
                         optional_vars=self._set("frame"),
                     ),
                 ],
@@ -937,11 +959,23 @@ class PteraTransformer(NodeTransformer):
             self.visit(node.value or ast.Constant(value=None)),
             True,
         )
+        # While the generator is suspended, its caller must not run with the
+        # handlers that are in effect inside the generator.
+        suspended = ast.Call(
+            func=self._get("suspend"),
+            args=[self._get("cm"), new_value],
+            keywords=[],
+        )
+        resumed = ast.Call(
+            func=self._get("resume"),
+            args=[self._get("cm"), ast.Yield(value=suspended)],
+            keywords=[],
+        )
         new_yield = self._interact(
             "#receive",
             None,
             self._get("enter_tag"),
-            ast.Yield(value=new_value),
+            resumed,
             True,
         )
         return ast.copy_location(new_yield, node)
@@ -1161,6 +1195,9 @@ def transform(fn, proceed, to_instrument=True, set_conformer=True):
         "get_tags": ("__ptera_get_tags", get_tags),
         "self": (fnsym, None),
         "frame": ("__ptera_frame", None),
+        "cm": ("__ptera_cm", None),
+        "suspend": ("__ptera_suspend", _suspend),
+        "resume": ("__ptera_resume", _resume),
         "enter_tag": ("__ptera_enter_tag", enter_tag),
         "exit_tag": ("__ptera_exit_tag", exit_tag),
     }
